@@ -94,6 +94,10 @@ var targets = []target{
 			"l.R.Close": {Lean: "R_CloseErr", Type: "Kit.GoSem.Err", Params: []string{"(R_CloseErr : Kit.GoSem.Err)"}, Effects: []string{"closeCalls := closeCalls + 1"}},
 		}},
 	{Group: "C03", Dir: "crypto/padding", Func: "UnpadPKCS7"},
+	{Group: "C07", Dir: "time", Func: "ParseISO8601Duration", Externs: map[string]extern{
+		// strconv.Atoi on the bytes of the substring: any (value, err) — a parameter of the translation
+		"strconv.Atoi": {Lean: "(atoi %1)", Type: "Int × Kit.GoSem.Err", Params: []string{"(atoi : List UInt8 → Int × Kit.GoSem.Err)"}},
+	}},
 }
 
 // ---------------------------------------------------------------------------------------------
@@ -187,6 +191,8 @@ func (c *fnCtx) leanType(t types.Type, n ast.Node) lty {
 			return tByte
 		case types.Bool, types.UntypedBool:
 			return tBool
+		case types.String:
+			return tBytes // a Go string is its bytes; indexing and slicing are byte-wise
 		}
 	case *types.Slice:
 		if b, ok := u.Elem().Underlying().(*types.Basic); ok && b.Kind() == types.Uint8 {
@@ -571,6 +577,11 @@ func (c *fnCtx) call(v *ast.CallExpr) exprOut {
 			p = append(p, pre{bindName: nm, bindRes: "(" + callee + " " + strings.Join(args, " ") + ")", bindTy: sig.resultTy})
 			return exprOut{s: nm, ty: sig.resultTy, pre: p}
 		}
+	}
+	// errors.New(<anything>): a non-nil error whose text is not modelled (its argument is a string
+	// expression, which cannot panic)
+	if sel, ok := v.Fun.(*ast.SelectorExpr); ok && printed(c.fset, sel) == "errors.New" {
+		return exprOut{s: `(some "errors.New" : Kit.GoSem.Err)`, ty: tErr}
 	}
 	// externs
 	if sel, ok := v.Fun.(*ast.SelectorExpr); ok {
